@@ -164,6 +164,22 @@ def bundle(kind, case):
             raise ValueError('non-bool data')
     sub_as = case.get('sub_as', 'list')
     base_as = case.get('base_as', 'list')
+    if kind in ('interval', 'interval_np'):
+        # every end point of a returned description must be bit-identical to an input end point
+        import struct
+        allowed = set()
+        for r in case['raw']:
+            for x in ([r[1]] if r[0] == 'num' else r[1]):
+                allowed.add(struct.pack('>d', x / s))
+        for A in case['subsets']:
+            d = ps.intention_i(_seq_as(A, sub_as))
+            if d is not None:
+                for e in (d[0], d[1]):
+                    if type(e) is not float or struct.pack('>d', e) not in allowed:
+                        raise ValueError('description end point %r is not an input end point' % (e,))
+        for l, r in canon(ps.data):
+            if struct.pack('>d', float(l)) not in allowed or struct.pack('>d', float(r)) not in allowed:
+                raise ValueError('stored end point (%r, %r) is not an input end point' % (l, r))
     ints = [desc_from_py(kind, ps.intention_i(_seq_as(A, sub_as)), s) for A in case['subsets']]
     exts = []
     for d in case['descs']:
@@ -305,6 +321,9 @@ def stats(case):
         bk = 'unsorted'
     return {'kind': case['kind'], 'rows': len(case['raw']), 'base': bk, 'base_as': case.get('base_as', 'list'),
             'sub_as': case.get('sub_as', 'list'), 'origin': case.get('origin', ''), 'legal': legal(case),
+            'grid': ('fine 2^-30' if case.get('scale', 1) == 2 ** 30 else
+                     'big ints' if any(abs(x) >= 2 ** 24 for r in case['raw'] if case['kind'].startswith('interval')
+                                       for x in ([r[1]] if r[0] == 'num' else r[1])) else 'small'),
             'api_calls': len(case['subsets']) + len(case['descs']) + 2}
 
 
@@ -380,6 +399,36 @@ def random_base(rng, n):
     return b
 
 
+def special_grid(rng, mode=None):
+    """Value grids that separate float64 from narrower float types while staying exact in float64
+    and in the Z model: integers around/above 2**24, 2**31, 2**40 (scale 1) and fine dyadic
+    fractions m / 2**30 (scale 2**30), each with pairs one grid unit apart, mixed with ordinary
+    small values.  Returns (scale, sorted grid of scaled integers)."""
+    mode = mode or rng.choice(['big', 'fine'])
+    if mode == 'big':
+        base = rng.choice([2 ** 24, 2 ** 24, 2 ** 31, 2 ** 40])
+        k = rng.randint(-2, 2)
+        vals = {base + k, base + k + 1}                       # one unit apart
+        vals |= {base + rng.randint(-3, 4) for _ in range(rng.randint(0, 2))}
+        if rng.random() < 0.5:
+            vals |= {-(base + rng.randint(0, 3))}
+        vals |= set(rng.sample(range(-5, 6), rng.randint(0, 2)))   # ordinary small values
+        return 1, sorted(vals)[:6] if rng.random() < 0.5 else sorted(vals)[-6:]
+    s = 2 ** 30
+    m = rng.choice([2 ** 29, 2 ** 30, 3 * 2 ** 29, 2 ** 31 - 7, 107374182, 322122547]) + rng.randint(-2, 2)
+    vals = {m, m + 1}                                          # differ by 2**-30
+    vals |= {m + rng.randint(-3, 4) for _ in range(rng.randint(0, 2))}
+    if rng.random() < 0.4:
+        vals |= {-m, -m - 1}
+    vals |= {x * s for x in rng.sample(range(-3, 4), rng.randint(0, 2))}     # ordinary values -3.0 .. 3.0
+    g = sorted(vals)
+    if len(g) > 6:
+        keep = {m, m + 1}
+        rest = [x for x in g if x not in keep]
+        g = sorted(keep | set(rng.sample(rest, 4)))
+    return s, g
+
+
 def random_interval_raw(rng, n, grid, illegal=False):
     raw = []
     style = rng.choice(['mixed', 'mixed', 'mixed', 'points', 'proper', 'nested', 'const'])
@@ -416,9 +465,12 @@ def random_case(rng, max_rows):
     subsets = subsets_for(rng, n)
     base = random_base(rng, n)
     if kind in ('interval', 'interval_np'):
-        scale = rng.choice([1, 2, 4, 1024])
-        g = rng.randint(1, 5)
-        grid = sorted(rng.sample(range(-6 * scale, 6 * scale + 1), g))
+        if rng.random() < 0.3:
+            scale, grid = special_grid(rng)
+        else:
+            scale = rng.choice([1, 2, 4, 1024])
+            g = rng.randint(1, 5)
+            grid = sorted(rng.sample(range(-6 * scale, 6 * scale + 1), g))
         raw = random_interval_raw(rng, n, grid, illegal=rng.random() < 0.03)
         sub_as = rng.choice(['list', 'list', 'array', 'tuple']) if kind == 'interval_np' else \
             rng.choice(['list', 'tuple'])
